@@ -109,7 +109,7 @@ func genC17Packet(t *rapid.T) []byte {
 		p.AF = &ref.AF{Len: 0}
 		p.Payload = genBytes(t, 183, 183, "pl")
 	case 2: // short payload behind stuffing
-		l := rapid.IntRange(100, 182).Draw(t, "afl") // with a payload the field is at most 182 bytes long (ISO 2.4.3.5)
+		l := rapid.IntRange(100, 183).Draw(t, "afl") // 183: the payload flag is set but no payload byte is left
 		p.AFC = 3
 		p.AF = &ref.AF{Len: l}
 		p.Payload = genBytes(t, 183-l, 183-l, "pl")
@@ -315,7 +315,13 @@ func checkC17(c CaseC17, x *hx.Ctx) *hx.Failure {
 					m.perr = nil
 				}
 				m.may = append(m.may, clone(b[:]))
-				if rp.AFC&1 == 0 {
+				// payload flag set but adaptation_field_length 183 leaves no payload byte (ISO allows 182 at most there): an
+				// accumulator may treat the packet as one without payload
+				emptyRefused := rp.AFC&1 != 0 && len(rp.Payload) == 0 && err != nil && bytes.Equal(acc.Bytes(), m.buf)
+				if d0, e0 := pred(m.buf); emptyRefused && (d0 || e0 != nil) && (errors.Is(err, gots.ErrAccumulatorDone) || (e0 != nil && errors.Is(err, e0))) {
+					emptyRefused = false // that is the predicate's answer on the (unchanged) bytes, not a refusal
+				}
+				if rp.AFC&1 == 0 || emptyRefused {
 					nNoPayload++
 					if err == nil {
 						return hx.Failf("no-payload-no-error", "%s: a packet without payload was not reported as an error", desc)
